@@ -54,6 +54,9 @@ FILES = {
     "OSq.Proofs.Bands2": {"C02": None, "C14": ["OSq.Bands.filter_identities_band_sharp"]},
     "OSq.Proofs.Bands3": {"C01": None, "C10": ["OSq.Bands.mckay_all_inputs"]},
     "OSq.Proofs.Bands4": {"C01": None},
+    "OSq.Proofs.Bands5": {"C01": None, "C10": ["OSq.Bands.cnotDecompose_ok_shortcut"]},
+    "OSq.Proofs.Kron": {"C08": None},
+    "OSq.Proofs.Snapshots": {"C13": None, "C17": ["OSq.Snap.frame_", "OSq.Snap.step_frame", "OSq.Snap.stepsAvoid_frame", "OSq.Snap.snapshot_independent", "OSq.Snap.mapInPlace_eq_heap_remap", "OSq.Snap.replaceObjs_spec"]},
     "OSq.Proofs.MergeIdem": {"C14": None, "C02": ["OSq.merge_idem_sem"]},
     "OSq.Proofs.GateTable": {"C07": None},
     "OSq.Proofs.Shape": {"C10": None},
